@@ -46,28 +46,71 @@ Ltac finish_one H :=
   cbn [snd fst]; eexists; split; [reflexivity | split; [reflexivity | ]];
   first [ reflexivity | rewrite H; reflexivity ].
 
-Lemma server_once s q : cf_ok q -> one_valid q (snd (serve s q)).
+(* every exit path of _check_file sends exactly one packet (STATUS or EXTENDED_REPLY, with the
+   request id) and returns, or raises before sending anything *)
+Definition one_or_raise (id : Z) (o : out) : Prop :=
+  o = Exc [] \/ exists rt d, o = Done [(rt, id, d)] /\ (rt = g_CMD_STATUS \/ rt = g_CMD_EXTENDED_REPLY).
+
+Lemma send_status_shape id k : one_or_raise id (send_status id k).
 Proof.
-  intros Hcf. unfold one_valid, serve, process.
+  unfold send_status, one_or_raise, status. destruct ((0 <=? k) && (k <? 4294967296)); [right | left; reflexivity].
+  exists g_CMD_STATUS, k. split; [reflexivity | left; reflexivity].
+Qed.
+
+Lemma cf_loop_shape id lim reads : forall offset, one_or_raise id (cf_loop id lim offset reads).
+Proof.
+  induction reads as [|r rest IH]; intros offset; cbn [cf_loop].
+  - destruct (lim <=? offset); right; exists g_CMD_EXTENDED_REPLY, 0; split; auto.
+  - destruct (lim <=? offset); [right; exists g_CMD_EXTENDED_REPLY, 0; split; auto|].
+    destruct r as [n | n | k | |].
+    + destruct (n <=? 0); [right; exists g_CMD_EXTENDED_REPLY, 0; split; auto | apply IH].
+    + right. exists g_CMD_STATUS, n. split; [reflexivity | left; reflexivity].
+    + apply send_status_shape.
+    + left. reflexivity.
+    + left. reflexivity.
+Qed.
+
+Lemma check_file_shape s id h a : one_or_raise id (check_file s id h a).
+Proof.
+  unfold check_file.
+  destruct (negb (cf_list_ok a)); [left; reflexivity|].
+  destruct (negb (memz h (s_files s))).
+  { right. exists g_CMD_STATUS, g_SFTP_BAD_MESSAGE. split; [reflexivity | left; reflexivity]. }
+  destruct (negb (cf_alg_ok a)); [apply send_status_shape|].
+  assert (A : forall length,
+             one_or_raise id
+               (if (if cf_block a =? 0 then length else cf_block a) <? 256 then send_status id g_SFTP_FAILURE
+                else cf_loop id (cf_start a + length) (cf_start a) (cf_reads a))).
+  { intros length. destruct ((if cf_block a =? 0 then length else cf_block a) <? 256);
+      [apply send_status_shape | apply cf_loop_shape]. }
+  destruct (cf_length a =? 0); [|apply A].
+  destruct (cf_stat a) as [k | | | n | n | |]; unfold send_status_desc_cb; try (left; reflexivity).
+  - apply send_status_shape.
+  - apply A.
+  - right. exists g_CMD_STATUS, n. split; [reflexivity | left; reflexivity].
+Qed.
+
+Lemma server_once s q : one_valid q (snd (serve s q)).
+Proof.
+  unfold one_valid, serve, process.
   pose proof (kind_sound (q_t q)) as H.
   destruct (kind_of (q_t q)) eqn:K; cbv beta iota in H.
   21: { unfold send_status; repeat brk; finish_one H. }
   20: { (* extended *)
     destruct (negb (q_text_ok q)) eqn:?; [finish_one H|].
     destruct (q_tag q =? 0) eqn:?.
-    - destruct Hcf as [E | [rt [d [E [R | R]]]]]; rewrite E; subst; finish_one H.
+    - destruct (check_file_shape s (q_id q) (q_h q) (q_cf q)) as [E | [rt [d [E [R | R]]]]];
+        rewrite E; subst; finish_one H.
     - unfold send_status_cb, send_status; repeat brk; finish_one H. }
   all: unfold attrs_or_status, invalid_handle, send_status_cb, send_status; repeat brk; finish_one H.
 Qed.
 
-Lemma server_stream qs : forall s,
-  Forall cf_ok qs -> Forall2 one_valid qs (serve_all s qs).
+Lemma server_stream qs : forall s, Forall2 one_valid qs (serve_all s qs).
 Proof.
-  induction qs as [|q r IH]; intros s Hcf; cbn [serve_all]; [constructor|].
-  inversion Hcf as [|? ? Hq Hr]; subst.
-  pose proof (server_once s q Hq) as H1.
+  induction qs as [|q r IH]; intros s; cbn [serve_all]; [constructor|].
+  pose proof (server_once s q) as H1.
   destruct (serve s q) as [s' l] eqn:E. cbn [snd] in H1.
-  constructor; [assumption | apply IH; assumption].
+  constructor; [assumption | apply IH].
 Qed.
 
 Lemma stream_ids_aux qs ls :
@@ -79,10 +122,9 @@ Proof.
 Qed.
 
 Lemma server_stream_ids qs s :
-  Forall cf_ok qs ->
   length (serve_all s qs) = length qs /\
   map (fun l => map r_id l) (serve_all s qs) = map (fun q => [q_id q]) qs.
-Proof. intros Hcf. apply stream_ids_aux, server_stream, Hcf. Qed.
+Proof. apply stream_ids_aux, server_stream. Qed.
 
 (* failures are STATUS packets with a non-zero code *)
 Lemma invalid_handle_status s q :
